@@ -5754,6 +5754,8 @@ class CodegenCtx:
                     if out_expr.default_value is not None:
                         assert out_expr.holds_a(OutputStorageType.STR)
                         counter_val = len(out_expr.default_value)
+                        if counter_val > out_expr.effective_string_size():
+                            raise IllegalDFAStateError("Default value is too long for output", out_expr)
                     contents.add("// initialize append counter for", out_expr.name)
                     contents.add(f"state->{out_expr.name}_counter = {counter_val};")
                     # empty null-terminated strings stored in the struct still need their terminator
